@@ -10,7 +10,15 @@ where
     R: AsyncRead + Unpin,
 {
     match read_header(reader, &mut container.header).await? {
-        0 => Ok(0),
+        0 => {
+            use crate::io::reader::container::header::EOF_LENGTH;
+
+            // The EOF container is only complete with its (empty) block. Consume it so that a
+            // stream that ends inside the EOF container is an error rather than a clean end.
+            let mut buf = [0; EOF_LENGTH];
+            reader.read_exact(&mut buf).await?;
+            Ok(0)
+        }
         len => {
             container.src.resize(len, 0);
             reader.read_exact(&mut container.src).await?;
